@@ -302,3 +302,49 @@ def inline_new_helpers(facts, reference_functions):
         if not progress:
             break
     return done
+
+
+# ------------------------------------------------------------------ option reads hoisted into locals
+def propagate_option_locals(facts):
+    """`let merge_props = self.options.merge_props;` ... `if merge_props` is the same program as `if self.options.merge_props`:
+    the options are never written after construction (R10.1 / R14 decide that), so an immutable local initialised from an option
+    field is replaced by the field read wherever it is used (HIR view; in MIR the copy is followed by the provenance analysis)."""
+    from .facts import strip_transparent, field_path
+    done = {}
+    for hb in facts.hir:
+        if hb["crate"] not in (VISITOR_CRATE, PLUGIN_CRATE) or hb.get("mac"):
+            continue
+        subs = {}
+        for n in walk(hb["body"]):
+            if n.get("k") == "Let" and n.get("init") is not None and n.get("else") is None:
+                p = n["pat"]
+                if p.get("k") == "PBind" and not p.get("sub") and (p.get("mode") or "") in ("BindingMode(No, Not)", ""):
+                    init = strip_transparent(n["init"])
+                    fp = field_path(init) if init.get("k") == "Field" else None
+                    if fp and fp.startswith("self.options."):
+                        subs[p["id"]] = (n, init)
+        if not subs:
+            continue
+        idsub = {i: init for i, (_, init) in subs.items()}
+        lets = {id(n) for n, _ in subs.values()}
+
+        def rec(x):
+            if isinstance(x, list):
+                return [rec(y) for y in x if not (isinstance(y, dict) and id(y) in lets)]
+            if not isinstance(x, dict):
+                return x
+            if x.get("k") == "Path" and x.get("res", {}).get("r") == "local" and x["res"].get("id") in idsub:
+                return copy.deepcopy(idsub[x["res"]["id"]])
+            for k, v in list(x.items()):
+                if k in ("res", "sp", "mac"):
+                    continue
+                if k == "captures" and isinstance(v, list):
+                    names = {n["pat"]["name"] for n, _ in subs.values()}
+                    x[k] = [c for c in v if c.get("place") not in names]
+                    continue
+                if isinstance(v, (dict, list)):
+                    x[k] = rec(v)
+            return x
+        hb["body"] = rec(hb["body"])
+        done[hb["path"]] = sorted(n["pat"]["name"] for n, _ in subs.values())
+    return done
